@@ -9,6 +9,8 @@ use crate::bits;
 use crate::backend;
 use crate::chain;
 use crate::skew;
+use crate::garbage;
+use crate::poison;
 use crate::common::*;
 use crate::model::Repr;
 
@@ -20,6 +22,8 @@ pub enum Trace {
     Backend(backend::BackendTrace),
     Chain(chain::ChainTrace),
     Skew(skew::SkewTrace),
+    Garbage(garbage::GarbageTrace),
+    Poison(poison::PoisonTrace),
 }
 
 pub struct Meta {
@@ -39,6 +43,8 @@ pub fn worlds_for(prop: &str) -> &'static [&'static str] {
         "C09" => &["ans", "range", "ans", "range", "bits", "chain"],
         "C13" | "C14" => &["chain"],
         "C05" => &["skew"],
+        "C10" => &["garbage"],
+        "C20" => &["poison", "ans", "range", "poison", "bits", "backend", "chain", "poison", "skew", "garbage"],
         "C16" => &["bits"],
         "C17" => &["backend"],
         _ => &[],
@@ -48,6 +54,19 @@ pub fn worlds_for(prop: &str) -> &'static [&'static str] {
 pub fn generate(prop: &str, seed: u64, index: u64, thorough: bool) -> Trace {
     let ws = worlds_for(prop);
     assert!(!ws.is_empty(), "harness: no world registered for {}", prop);
+    // C20 re-uses every explorer with that explorer's own workload bias
+    let sub = |cands: &[&'static str]| -> &'static str { cands[((index / ws.len() as u64) % cands.len() as u64) as usize] };
+    let prop: &str = if prop == "C20" {
+        match ws[(index % ws.len() as u64) as usize] {
+            "ans" => sub(&["C01", "C04", "C07", "C08", "C09", "C12", "C18"]),
+            "range" => sub(&["C02", "C07", "C08", "C09", "C11", "C12", "C18"]),
+            "bits" => sub(&["C16", "C08", "C09"]),
+            "chain" => sub(&["C13", "C14", "C09"]),
+            _ => "C20",
+        }
+    } else {
+        prop
+    };
     match ws[(index % ws.len() as u64) as usize] {
         "ans" => Trace::Ans(ans::generate(seed, prop, thorough)),
         "range" => Trace::Range(range::generate(seed, prop, thorough)),
@@ -55,6 +74,8 @@ pub fn generate(prop: &str, seed: u64, index: u64, thorough: bool) -> Trace {
         "backend" => Trace::Backend(backend::generate(seed, prop, thorough)),
         "chain" => Trace::Chain(chain::generate(seed, prop, thorough)),
         "skew" => Trace::Skew(skew::generate(seed, prop, thorough)),
+        "garbage" => Trace::Garbage(garbage::generate(seed, prop, thorough)),
+        "poison" => Trace::Poison(poison::generate(seed, prop, thorough)),
         w => panic!("harness: unknown world {}", w),
     }
 }
@@ -85,6 +106,8 @@ pub fn exec(t: &Trace, ctx: &mut Ctx) -> Result<(), Violation> {
         Trace::Backend(t) => backend::exec(t, ctx),
         Trace::Chain(t) => chain::exec(t, ctx),
         Trace::Skew(t) => skew::exec(t, ctx),
+        Trace::Garbage(t) => garbage::exec(t, ctx),
+        Trace::Poison(t) => poison::exec(t, ctx),
         Trace::Bits(t) => {
             if ctx.on("C08") {
                 let twin = {
@@ -135,6 +158,14 @@ pub fn ops_len(t: &Trace) -> usize {
         Trace::Backend(t) => t.ops.len(),
         Trace::Chain(t) => t.steps.len(),
         Trace::Skew(t) => t.symbols.len(),
+        Trace::Garbage(t) => t.decodes.len(),
+        Trace::Poison(t) => match t {
+            poison::PoisonTrace::BufMut { uses, .. } => uses.len() + 2,
+            poison::PoisonTrace::Floats { queries, .. } => queries.len() + 2,
+            poison::PoisonTrace::Cdf { queries, .. } => queries.len() + 2,
+            poison::PoisonTrace::Quantile { quantiles, .. } => quantiles.len() + 2,
+            poison::PoisonTrace::ValidModel { .. } => 2,
+        },
     }
 }
 
@@ -170,12 +201,51 @@ pub fn without_ops(t: &Trace, from: usize, to: usize) -> Trace {
             t.symbols.drain(from..to.min(t.symbols.len()));
             Trace::Skew(t)
         }
+        Trace::Garbage(t) => {
+            let mut t = t.clone();
+            t.decodes.drain(from..to.min(t.decodes.len()));
+            Trace::Garbage(t)
+        }
+        Trace::Poison(t) => {
+            let mut t = t.clone();
+            // ops_len counts two structural steps before the droppable list
+            let (a, b) = (from.saturating_sub(2), to.saturating_sub(2));
+            match &mut t {
+                poison::PoisonTrace::BufMut { uses, .. } => { let b = b.min(uses.len()); if a < b { uses.drain(a..b); } }
+                poison::PoisonTrace::Floats { queries, .. } => { let b = b.min(queries.len()); if a < b { queries.drain(a..b); } }
+                poison::PoisonTrace::Cdf { queries, .. } => { let b = b.min(queries.len()); if a < b { queries.drain(a..b); } }
+                poison::PoisonTrace::Quantile { quantiles, .. } => { let b = b.min(quantiles.len()); if a < b { quantiles.drain(a..b); } }
+                poison::PoisonTrace::ValidModel { .. } => {}
+            }
+            Trace::Poison(t)
+        }
     }
 }
 
 pub fn simplifications(t: &Trace) -> Vec<Trace> {
     let mut out = Vec::new();
     match t {
+        Trace::Poison(_) => {}
+        Trace::Garbage(t) => {
+            if t.data.len() > 1 {
+                for cut in [t.data.len() / 2, 1] {
+                    let mut c = t.clone();
+                    c.data.drain(0..cut);
+                    c.origin = "minimised".into();
+                    out.push(Trace::Garbage(c));
+                    let mut c = t.clone();
+                    c.data.truncate(t.data.len() - cut);
+                    c.origin = "minimised".into();
+                    out.push(Trace::Garbage(c));
+                }
+            }
+            if t.src != garbage::Src::Vec {
+                let mut c = t.clone();
+                c.src = garbage::Src::Vec;
+                c.err_at = None;
+                out.push(Trace::Garbage(c));
+            }
+        }
         Trace::Skew(t) => {
             for (a, b, c) in [(Repr::Plain, t.twin, t.consumer), (t.producer, Repr::Plain, t.consumer), (t.producer, t.twin, Repr::Plain)] {
                 if (a, b, c) != (t.producer, t.twin, t.consumer) {
@@ -333,7 +403,7 @@ pub fn meta(prop: &str) -> Meta {
     let worlds = worlds_for(prop).to_vec();
     Meta {
         worlds,
-        rule: "each run: seed -> explicit trace (configuration, model specs, operation list, fault placements) -> deterministic executor against the real library with reference models as oracles; a run is non-trivial if its trace has >= 2 operations; distinct = distinct trace hash".to_string(),
+        rule: "each run: seed -> explicit trace (configuration, model specs, operation list, fault placements) -> deterministic executor against the real library with reference models as oracles; a run is non-trivial if its trace has >= 2 operations; distinct = distinct trace hash (the set is capped at 150k per worker process, so the number is a conservative under-count for big batches)".to_string(),
         state_measure: "hash of (bit length of the coder head, bulk empty?, kind of last operation, (Word,State) configuration, min(LIFO depth, 8)) for the ans world".to_string(),
         stubs: vec!["Store (simulator-owned word store behind the public backend traits)", "TableModel / FnModel / Dyn (harness entropy models behind the public model traits)"],
         assumptions: vec![
